@@ -74,6 +74,62 @@ def unrelated_activity(rnd):
         other.rng.normal(size=5)
 
 
+def raytracing_suite(rnd, count, findings):
+    """targets whose misfit involves a search of their own: the layered ray tracer"""
+    from hmclab.Distributions import LayeredRayTracing2D
+    from hmclab.Samples import Samples
+    _, S, MM, D = _hm()
+    sr = Suite("C09.raytracing", "RWMH(seed) on LayeredRayTracing2D targets (serial ray tracing; 6-10 layers, 12-28 receivers, the take-off angle search needs refinement): "
+               "(a) two runs on freshly constructed, identical targets with NumPy's global generator in different states, (b) two runs on one and the same target "
+               "object (it has been used by the first run), global generator in the same state; byte-identical files required; non-trivial = all")
+    with scratch() as tmp:
+        for ci in range(count):
+            nl = rnd.choice([6, 8, 10])
+            inter = np.linspace(0, 1000, nl) + 20
+            rz = np.linspace(100, 800, rnd.choice([12, 20, 28]))
+            vtrue = np.ones(nl) * 1200 + inter * 1.2
+            m0 = (vtrue * 1.05)[:, None]
+            sd = rnd.randrange(1 << 30)
+            P = rnd.choice([4, 6])
+
+            def target():
+                ph = LayeredRayTracing2D(inter, [500], rz)
+                ph.parallel = False
+                np.random.seed(1234)
+                obs = np.array(ph.forward(vtrue))
+                t = LayeredRayTracing2D(inter, [500], rz, traveltimes_observed=obs)
+                t.parallel = False
+                return t
+
+            def go(t, tag, gseed):
+                np.random.seed(gseed)
+                fn = os.path.join(tmp, f"ray{ci}{tag}.h5")
+                with quiet(), np.errstate(all="ignore"):
+                    S.RWMH(seed=sd).sample(fn, t, stepsize=5.0, initial_model=m0.copy(), proposals=P, disable_progressbar=True, overwrite_existing_file=True)
+                    sm = Samples(fn)
+                    arr = np.array(sm.numpy, dtype=float)
+                    sm.close()
+                return arr
+
+            cfg = {"layers": nl, "receivers": int(rz.size), "seed": sd, "proposals": P}
+            with quiet(), np.errstate(all="ignore"):
+                a = go(target(), "a", 0)
+                b = go(target(), "b", 1)
+                shared = target()
+                c1 = go(shared, "c1", 0)
+                c2 = go(shared, "c2", 0)
+            for vname, x, y, sig in (("fresh targets, global generator in another state", a, b, {"kind": "raytracing", "variant": "global-rng"}),
+                                     ("the same target object, used by the first run", c1, c2, {"kind": "raytracing", "variant": "target-object-used-before"})):
+                stim = {"config": cfg, "variant": vname}
+                sr.case(stim, nontrivial=True, sample=stim if len(sr.samples) < 2 else None)
+                sr.count(f"variant={vname}")
+                if x.shape != y.shape or x.tobytes() != y.tobytes():
+                    sr.count(f"differs: {vname}")
+                    findings.append(Finding("C09", f"LayeredRayTracing2D target, RWMH(seed={sd}): two runs with the same seed, initial model and tuning differ ({vname})",
+                                            sig, {"oracle": "raytracing", "stimulus": stim}))
+    return sr
+
+
 def run(tier, seed):
     rnd = random.Random(16807 * seed + 9)
     thorough = tier == "thorough"
@@ -203,11 +259,12 @@ def run(tier, seed):
                 findings.append(Finding("C09", f"{name}.generate(repeat, rng=<seeded generator>): {problems[0]}",
                                         {"kind": "generate", "class": name, "problem": problems[0][:30]},
                                         {"oracle": "generate", "stimulus": stim, "problems": problems}))
+    sr = raytracing_suite(rnd, 3 if thorough else 1, findings)
     # model side: the file depends on (P, t) only — two environments, same answer
     ans = lean_batch(["c08.fault 12 3 " + " ".join(["1"] * 12) + " - I", "c08.fault 12 3 " + " ".join(["7"] * 12) + " - I"])
     if ans[0] != ans[1]:
         st.disagree({"model": "env"}, ans[0], ans[1], "model columns depend on the number of instrumented calls")
-    return [st, sg], findings
+    return [st, sg, sr], findings
 
 
 def search(tier, seed, broken):
